@@ -737,6 +737,54 @@ func byteSweep(c *core.Ctx) {
 	}
 }
 
+// largeBounds: pages of more than 1 MiB of values. The bounds kernels switch
+// to other ("combined") routines for large inputs; their vector loops and
+// scalar tails are not reached by small pages.  The extreme values are placed
+// at positions that fall into the tail (count not a multiple of 32 or 64) and
+// into the middle, on both sides of the sign bit.
+func largeBounds(c *core.Ctx) {
+	for _, k := range kinds {
+		if !k.Num || k.Width < 4 || len(k.Domain) < 4 || k.Name == "int8" || k.Name == "uint16" {
+			continue
+		}
+		for _, n := range []int{(1 << 20) / k.Width, (1<<20)/k.Width + 7, (1<<20)/k.Width + 45} {
+			lo, hi := k.Domain[0], k.Domain[len(k.Domain)-1]
+			midA, midB := k.Domain[len(k.Domain)/2], k.Domain[len(k.Domain)/2-1]
+			for _, where := range []string{"tail", "middle", "head"} {
+				vals := make([]parquet.Value, n)
+				for i := range vals {
+					if i%2 == 0 {
+						vals[i] = midA
+					} else {
+						vals[i] = midB
+					}
+				}
+				switch where {
+				case "tail":
+					vals[n-2], vals[n-1] = hi, lo
+				case "middle":
+					vals[n/2], vals[n/2+13] = lo, hi
+				default:
+					vals[1], vals[2] = hi, lo
+				}
+				mn, mx, has, err := pageBounds(k, false, vals)
+				c.Res.Evaluations++
+				what := fmt.Sprintf("%s page of %d values (%d bytes), extremes in the %s", k.Name, n, n*k.Width, where)
+				rp := map[string]any{"kind": k.Name, "values": n, "where": where, "what": "large page bounds"}
+				switch {
+				case err != "":
+					c.Violation("bounds-panic", what+": "+err, rp)
+				case !has:
+					c.Violation("page-bounds-wrong", what+": no bounds", rp)
+				case k.Typ.Compare(mn, lo) != 0 || k.Typ.Compare(mx, hi) != 0:
+					c.Violation("page-bounds-wrong", fmt.Sprintf("%s: bounds [%s,%s], the page holds %s and %s", what, k.show(mn), k.show(mx), k.show(lo), k.show(hi)), rp)
+				}
+				c.Case("large/bounds/"+k.Name, fmt.Sprintf("%d/%s", n, where), true)
+			}
+		}
+	}
+}
+
 func randValues(c *core.Ctx, k *kind, n int, nanRate int) []parquet.Value {
 	idx := walk(c, c.Rng.Intn(4), n, len(k.Domain))
 	out := make([]parquet.Value, n)
@@ -1826,6 +1874,7 @@ func runC05(c *core.Ctx) {
 	// bytes of the values; a wrong permutation entry only shows when every
 	// other byte ties)
 	byteSweep(c)
+	largeBounds(c)
 	// page and dictionary bounds
 	nB := c.N(8000, 50000)
 	for i := 0; i < nB; i++ {
